@@ -381,8 +381,10 @@ class MergerConfig:
             return ""
 
         for rule_coord, rule_config in section.items():
+            # A rule names one place of the document, not every place
+            # which holds an equal value under an equal parent
             if rule_coord.node == node_coord.node \
-                    and rule_coord.parent == node_coord.parent \
+                    and rule_coord.parent is node_coord.parent \
                     and rule_coord.parentref == node_coord.parentref:
                 return str(rule_config)
 
